@@ -91,6 +91,8 @@ theorem chargeSeek_tx (c : Cfg) (s : St) (b : Bool) : (chargeSeek c s b).tx = s.
   unfold chargeSeek; split <;> rfl
 theorem chargeSeek_frozen (c : Cfg) (s : St) (b : Bool) : (chargeSeek c s b).frozen = s.frozen := by
   unfold chargeSeek; split <;> rfl
+theorem chargeSeek_running (c : Cfg) (s : St) (b : Bool) : (chargeSeek c s b).running = s.running := by
+  unfold chargeSeek; split <;> rfl
 theorem chargeSeek_false (c : Cfg) (s : St) : chargeSeek c s false = s := by
   simp [chargeSeek]
 theorem chargeSeek_noseeks (c : Cfg) (s : St) (b : Bool) (h : c.seeks = false) : chargeSeek c s b = s := by
@@ -110,9 +112,9 @@ theorem afterClose_ne_live (t : TxSt) : t.afterClose ≠ .live := by
 /-- in `closed` nothing happens -/
 theorem step_closed (c : Cfg) (s : St) (e : Ev) (hm : s.mode = .closed) :
     (step c s e).st = s ∧ (step c s e).acts = [] := by
-  obtain ⟨mode, bg, frozen, due, pins, tx⟩ := s
+  obtain ⟨mode, bg, frozen, due, pins, tx, running⟩ := s
   simp only at hm; subst hm
-  cases e <;> simp [step, stepDB, stepTx, chargeSeek]
+  cases e <;> simp [step, stepDB, stepTx, chargeSeek, compactionRuns]
 
 theorem RoInv_stepRO (c : Cfg) (s : St) (m : DBm) (p : Nat) (cls : Cls) (h : RoInv s) :
     RoInv (stepRO c s m p cls).st ∧ ∀ a ∈ (stepRO c s m p cls).acts, a.mutating = false := by
@@ -148,7 +150,7 @@ theorem RoInv_step (c : Cfg) (s : St) (e : Ev) (h : RoInv s) :
       simp only [step, hb, Bool.false_and, Bool.false_eq_true, if_false]
       exact ⟨h', by simp⟩
     | bgCompact p =>
-      simp only [step, hb, Bool.false_and, Bool.false_eq_true, if_false]
+      simp only [step, compactionRuns, hb, Bool.false_and, Bool.false_eq_true, if_false]
       exact ⟨h', by simp⟩
   · have hc := step_closed c s e hm
     rw [hc.1, hc.2]
@@ -158,8 +160,12 @@ theorem RoInv_step (c : Cfg) (s : St) (e : Ev) (h : RoInv s) :
 def SwInv (s : St) : Prop :=
   (s.mode = .switchedRO ∨ s.mode = .closed) ∧ s.drained = true ∧ s.tx ≠ .live
 
-theorem drained_iff (s : St) : s.drained = true ↔ s.frozen = false ∧ s.due = 0 ∧ s.pins = 0 := by
+theorem drained_iff (s : St) : s.drained = true ↔ s.frozen = false ∧ s.due = 0 ∧ s.pins = 0 ∧ s.running = false := by
   simp [St.drained, and_assoc]
+
+theorem pending_drained (c : Cfg) (s : St) (hdue : s.due = 0) (hr : s.running = false) :
+    compactionPending c s = false := by
+  unfold compactionPending; split <;> simp [hdue, hr]
 
 theorem drained_charge (c : Cfg) (s : St) (b : Bool) (hb : c.seeks = false ∨ b = false) :
     chargeSeek c s b = s := by
@@ -172,12 +178,12 @@ theorem SwInv_stepRO (c : Cfg) (s : St) (m : DBm) (p : Nat) (cls : Cls) (h : SwI
     SwInv (stepRO c s m p cls).st ∧ ∀ a ∈ (stepRO c s m p cls).acts, a.mutating = false := by
   have h' := h
   obtain ⟨hm, hd, ht⟩ := h
-  obtain ⟨hf, hdue, hp⟩ := (drained_iff s).mp hd
+  obtain ⟨hf, hdue, hp, hr⟩ := (drained_iff s).mp hd
   unfold stepRO
   split
   · refine ⟨⟨Or.inr rfl, ?_, afterClose_ne_live _⟩, ?_⟩
     · simp [closeRes, St.drained, hf, hdue, hp]
-    · simp [closeRes, txLive_beq_false _ ht, hf, hdue, Act.mutating]
+    · simp [closeRes, txLive_beq_false _ ht, hf, pending_drained c s hdue hr, Act.mutating]
   · split
     · exact ⟨h', by simp [Act.mutating]⟩
     · rw [drained_charge c s _ hq]
@@ -188,7 +194,7 @@ theorem SwInv_step (c : Cfg) (s : St) (e : Ev) (h : SwInv s) (hq : c.seeks = fal
     SwInv (step c s e).st ∧ ∀ a ∈ (step c s e).acts, a.mutating = false := by
   have h' := h
   obtain ⟨hm, hd, ht⟩ := h
-  obtain ⟨hf, hdue, hp⟩ := (drained_iff s).mp hd
+  obtain ⟨hf, hdue, hp, hr⟩ := (drained_iff s).mp hd
   rcases hm with hm | hm
   · cases e with
     | db m p =>
@@ -213,41 +219,109 @@ theorem SwInv_step (c : Cfg) (s : St) (e : Ev) (h : SwInv s) (hq : c.seeks = fal
       simp only [step, hf, Bool.and_false, Bool.false_and, Bool.false_eq_true, if_false]
       exact ⟨h', by simp⟩
     | bgCompact p =>
-      simp only [step, hdue, Nat.lt_irrefl, decide_false, Bool.and_false, Bool.false_and, Bool.false_eq_true, if_false]
+      simp only [step, compactionRuns, pending_drained c s hdue hr, Bool.and_false, Bool.false_eq_true, if_false]
       exact ⟨h', by simp⟩
   · have hc := step_closed c s e hm
     rw [hc.1, hc.2]
     exact ⟨h', by simp⟩
 
-/-- `n` due compactions, none of which makes another one due or is deferred -/
-theorem run_compacts (c : Cfg) (n pins : Nat) (tx : TxSt) :
-    (run c ⟨.switchedRO, true, false, n, pins, tx⟩ (List.replicate n (.bgCompact 0))).1
-      = ⟨.switchedRO, true, false, 0, pins, tx⟩ := by
-  induction n with
-  | zero => simp [run]
+/-- `n` due compactions, none of which makes another one due or is deferred (a loop that does not park) -/
+theorem run_compacts (c : Cfg) (hc : c.parks = false) (n pins : Nat) (tx : TxSt) (running : Bool)
+    (hr : running = true → n > 0) :
+    (run c ⟨.switchedRO, true, false, n, pins, tx, running⟩ (List.replicate n (.bgCompact 0))).1
+      = ⟨.switchedRO, true, false, 0, pins, tx, false⟩ := by
+  induction n generalizing running with
+  | zero =>
+    cases running
+    · simp [run]
+    · exact absurd (hr rfl) (by decide)
   | succ n ih =>
-    have hs : (step c ⟨.switchedRO, true, false, n + 1, pins, tx⟩ (.bgCompact 0)).st
-        = ⟨.switchedRO, true, false, n, pins, tx⟩ := by
-      simp [step, deferred, moreDue]
+    have hs : (step c ⟨.switchedRO, true, false, n + 1, pins, tx, running⟩ (.bgCompact 0)).st
+        = ⟨.switchedRO, true, false, n, pins, tx, false⟩ := by
+      simp [step, compactionRuns, compactionPending, hc, deferred, moreDue]
     rw [List.replicate_succ, run_cons, hs]
-    exact ih
+    exact ih false (by simp)
 
 /-- the iterators that pin replaced tables are released -/
-theorem run_unpins (c : Cfg) (n : Nat) (tx : TxSt) :
-    (run c ⟨.switchedRO, true, false, 0, n, tx⟩ (List.replicate n (.iter .live .release 1))).1
-      = ⟨.switchedRO, true, false, 0, 0, tx⟩ := by
+theorem run_unpins (c : Cfg) (n due : Nat) (tx : TxSt) :
+    (run c ⟨.switchedRO, true, false, due, n, tx, false⟩ (List.replicate n (.iter .live .release 1))).1
+      = ⟨.switchedRO, true, false, due, 0, tx, false⟩ := by
   induction n with
   | zero => simp [run]
   | succ n ih =>
-    have hs : (step c ⟨.switchedRO, true, false, 0, n + 1, tx⟩ (.iter .live .release 1)).st
-        = ⟨.switchedRO, true, false, 0, n, tx⟩ := by
+    have hs : (step c ⟨.switchedRO, true, false, due, n + 1, tx, false⟩ (.iter .live .release 1)).st
+        = ⟨.switchedRO, true, false, due, n, tx, false⟩ := by
       simp [step]
     rw [List.replicate_succ, run_cons, hs]
     exact ih
 
-theorem run_flush (c : Cfg) (frozen : Bool) (due pins : Nat) (tx : TxSt) :
-    (run c ⟨.switchedRO, true, frozen, due, pins, tx⟩ [.bgFlush 0]).1 = ⟨.switchedRO, true, false, due, pins, tx⟩ := by
+theorem run_flush (c : Cfg) (frozen : Bool) (due pins : Nat) (tx : TxSt) (running : Bool) :
+    (run c ⟨.switchedRO, true, frozen, due, pins, tx, running⟩ [.bgFlush 0]).1
+      = ⟨.switchedRO, true, false, due, pins, tx, running⟩ := by
   cases frozen <;> simp [run, step, moreDue]
+
+/-- a parked loop: the compaction that was running when the flag went up completes, nothing else starts -/
+theorem run_finish_running (c : Cfg) (hc : c.parks = true) (due pins : Nat) (tx : TxSt) (running : Bool) :
+    (run c ⟨.switchedRO, true, false, due, pins, tx, running⟩ [.bgCompact 0]).1
+      = ⟨.switchedRO, true, false, if running then due - 1 else due, pins, tx, false⟩ := by
+  cases running <;> simp [run, step, compactionRuns, compactionPending, hc, deferred, moreDue]
+
+/-! ### the parked loop: settled stays settled, whatever is called -/
+
+/-- switched to read-only (or closed since), what was in flight has completed, no live transaction -/
+def PkInv (s : St) : Prop :=
+  (s.mode = .switchedRO ∨ s.mode = .closed) ∧ s.settled = true ∧ s.tx ≠ .live
+
+theorem settled_iff (s : St) : s.settled = true ↔ s.frozen = false ∧ s.running = false ∧ s.pins = 0 := by
+  simp [St.settled, and_assoc]
+
+theorem PkInv_charge (c : Cfg) (s : St) (b : Bool) (h : PkInv s) : PkInv (chargeSeek c s b) := by
+  obtain ⟨hm, hd, ht⟩ := h
+  obtain ⟨hf, hr, hp⟩ := (settled_iff s).mp hd
+  refine ⟨by rw [chargeSeek_mode]; exact hm, ?_, by rw [chargeSeek_tx]; exact ht⟩
+  rw [settled_iff, chargeSeek_frozen, chargeSeek_running, chargeSeek_pins]
+  exact ⟨hf, hr, hp⟩
+
+theorem pending_parked (c : Cfg) (hc : c.parks = true) (s : St) (hm : s.mode = .switchedRO)
+    (hr : s.running = false) : compactionPending c s = false := by
+  simp [compactionPending, hc, hm, hr]
+
+/-- one step from a settled read-only state under a parking loop: ANY event -/
+theorem PkInv_step (c : Cfg) (hc : c.parks = true) (s : St) (e : Ev) (h : PkInv s) :
+    PkInv (step c s e).st ∧ ∀ a ∈ (step c s e).acts, a.mutating = false := by
+  have h' := h
+  obtain ⟨hm, hd, ht⟩ := h
+  obtain ⟨hf, hr, hp⟩ := (settled_iff s).mp hd
+  rcases hm with hm | hm
+  · cases e with
+    | db m p =>
+      simp only [step, stepDB, hm]
+      unfold stepRO
+      split
+      · refine ⟨⟨Or.inr rfl, ?_, afterClose_ne_live _⟩, ?_⟩
+        · simp [closeRes, St.settled, hf, hp]
+        · simp [closeRes, txLive_beq_false _ ht, hf, pending_parked c hc s hm hr, Act.mutating]
+      · split
+        · exact ⟨h', by simp [Act.mutating]⟩
+        · exact ⟨PkInv_charge c s _ h', by simp⟩
+    | tx m p =>
+      simp only [step, stepTx, hm, ht, reduceCtorEq, if_false]
+      exact ⟨h', by simp⟩
+    | snap hh m p =>
+      simp only [step]
+      exact ⟨PkInv_charge c s _ h', by simp⟩
+    | iter hh m p =>
+      simp only [step, hp, Nat.lt_irrefl, decide_false, Bool.and_false, Bool.false_and, Bool.false_eq_true, if_false]
+      exact ⟨PkInv_charge c s _ h', by simp⟩
+    | bgFlush p =>
+      simp only [step, hf, Bool.and_false, Bool.false_and, Bool.false_eq_true, if_false]
+      exact ⟨h', by simp⟩
+    | bgCompact p =>
+      simp only [step, compactionRuns, pending_parked c hc s hm hr, Bool.and_false, Bool.false_eq_true, if_false]
+      exact ⟨h', by simp⟩
+  · have hcl := step_closed c s e hm
+    rw [hcl.1, hcl.2]
+    exact ⟨h', by simp⟩
 
 theorem stepRW_cls (c : Cfg) (s : St) (m : DBm) (p : Nat) (cls : Cls) : (stepRW c s m p cls).cls = cls := by
   unfold stepRW closeRes
